@@ -238,6 +238,28 @@ fn check(run: &mut Run, sub: &Subject, f: &PreprocessingFn, text: &str, g: bool,
     Some(input)
 }
 
+/// `srng::seed_table` with progress ticks (2^17 entries take seconds on a loaded machine): for every
+/// bit vector v of length n the smallest seed whose first n decisions at p = 1/2 are v (bit i = i-th
+/// draw below 1/2)
+fn seed_table(run: &Run, n: usize) -> Vec<u64> {
+    let total = 1usize << n;
+    let mut table = vec![u64::MAX; total];
+    let (mut found, mut seed) = (0, 0u64);
+    while found < total {
+        let key = srng::decisions(seed, n, 0.5).iter().enumerate().fold(0usize, |k, (i, b)| k | (*b as usize) << i);
+        if table[key] == u64::MAX {
+            table[key] = seed;
+            found += 1;
+        }
+        seed += 1;
+        if seed & 0xffff == 0 {
+            run.tick();
+        }
+        assert!(seed < 1 << 32, "seed table search did not converge");
+    }
+    table
+}
+
 fn first_line(s: &str) -> String {
     s.lines().next().unwrap_or("").to_string()
 }
@@ -278,7 +300,7 @@ fn main() {
     // one threshold draw per character: the table must cover the longest text
     let n_draws = all.iter().map(|u| refs::chars(&u.text, u.g).len()).max().unwrap();
     let t0 = run.elapsed();
-    let table = srng::seed_table(n_draws);
+    let table = seed_table(&run, n_draws);
     let table_s = run.elapsed() - t0;
     let half = [corruption(0.5, 0.5, false), corruption(0.5, 0.5, true)];
     let extra: Vec<[Box<PreprocessingFn>; 2]> = EXTRA_PROBS.iter().map(|(pi, pd)| [corruption(*pi, *pd, false), corruption(*pi, *pd, true)]).collect();
